@@ -120,7 +120,35 @@ def k_big(ctx, cases):
 				              impl=f32_bits(d))
 
 
-KINDS = {'triple': k_triple, 'big': k_big}
+def k_width(ctx, cases):
+	"""the distance does not depend on the integer width either signature is stored in -- through the
+	two-signature function and through the bulk functions (a query wider than the references must not be
+	narrowed)"""
+	from gambit.metric import jaccarddist, jaccarddist_array, jaccarddist_matrix
+	from gambit.sigs.base import SignatureArray, SignatureList
+	for c in cases:
+		A, B = c['a'], c['b']
+		s, u = len(set(A) ^ set(B)), len(set(A) | set(B))
+		want = round_ratio_f32(s, u) if u else 0
+		ctx.case(c, nontrivial=bool(set(A) & set(B)) and set(A) != set(B))
+		a, b = _arr(A, c['da']), _arr(B, c['db'])
+		obs = {}
+		obs['jaccarddist'] = f32_bits(jaccarddist(a, b))
+		obs['jaccarddist swapped'] = f32_bits(jaccarddist(b, a))
+		obs['jaccarddist u8,u8'] = f32_bits(jaccarddist(np.array(A, dtype='u8'), np.array(B, dtype='u8')))
+		obs['jaccarddist_array(query, SignatureArray)'] = f32_bits(jaccarddist_array(a, SignatureArray([b]))[0])
+		obs['jaccarddist_array(query, SignatureList)'] = f32_bits(jaccarddist_array(a, SignatureList([b]))[0])
+		obs['jaccarddist_array(query, list)'] = f32_bits(jaccarddist_array(a, [b])[0])
+		obs['jaccarddist_matrix'] = f32_bits(jaccarddist_matrix([a], SignatureArray([b]))[0, 0])
+		obs['jaccarddist_array(ref as query, SignatureArray)'] = f32_bits(jaccarddist_array(b, SignatureArray([a]))[0])
+		for name, bits in obs.items():
+			if bits != want:
+				ctx.violation('width', c, f'{name} with widths ({c["da"]},{c["db"]}) has bits {bits}; the distance of the two sets '
+				              f'({s}/{u}) has bits {want}: the value depends on the integer width / the API used', impl=obs, spec=want)
+				break
+
+
+KINDS = {'triple': k_triple, 'big': k_big, 'width': k_width}
 SHRINK = False
 
 
@@ -150,5 +178,16 @@ def generate(ctx):
 		da, db, dc = (rng.choice(DTYPES[1:3] + DTYPES[4:]) for _ in range(3))
 		ctx.count('stream:random-triples')
 		yield 'triple', dict(a=variant(), b=variant(), c=variant(), da=da, db=db, dc=dc, x=2 * univ + 1)
+	# width independence with values beyond the narrower type's range, residues colliding mod 2^16 / 2^32
+	for da, db, lim in (('u4', 'u2', 2 ** 16), ('i4', 'u2', 2 ** 16), ('u8', 'u2', 2 ** 16), ('i8', 'i2', 2 ** 15),
+	                    ('u8', 'u4', 2 ** 32), ('i8', 'u4', 2 ** 32), ('u8', 'i4', 2 ** 31)):
+		for _ in range(ctx.pick(6, 40)):
+			small = sorted(rng.sample(range(min(lim, 5000)), rng.randint(1, 8)))
+			big = sorted({lim * rng.randint(1, 3) + x for x in rng.sample(small, rng.randint(1, len(small)))} |
+			             {lim + rng.randrange(lim) for _ in range(rng.randint(0, 2))})
+			A = sorted(set(rng.sample(small, rng.randint(0, len(small)))) | set(big))
+			B = small
+			ctx.count('stream:width-collisions')
+			yield 'width', dict(a=A, b=B, da=da, db=db)
 	yield 'big', dict(name='add_common_2p24')
 	yield 'big', dict(name='one_not_disjoint_2p25')
